@@ -8,9 +8,12 @@
                                     {"ok":{"slot":i,"a":Atoms}} only the slot the op wrote        ("dump":"changed")
                                     {"err":"…"}                the step failed
                                     {"skipped":true}           a previous step failed
+   every "ok" entry also carries "guarded": whether the op satisfied the guard of the theorems
+   (`GuardedOp s op ∧ AlignedOp op`, decided by the instances the theorems are stated with) in the state it ran in
 -/
 import MofunModel.Drive.Codec
 import MofunModel.Model.Hist
+import MofunModel.Proofs.HistMeaning
 
 open Lean Mofun.Codec Mofun.Hist
 
@@ -52,13 +55,22 @@ def stateToJson (s : State) : Json := Json.arr (s.map slotToJson).toArray
 def parseState (j : Json) : P State := do
   (← arr j).mapM (fun x => if x.isNull then pure none else do pure (some (← parseAtoms x)))
 
-def stepResultToJson (full : Bool) (op : Op) : Option (Except Err State) → Json
+def stepResultToJson (full : Bool) (op : Op) (guarded : Bool) : Option (Except Err State) → Json
   | none => Json.mkObj [("skipped", Json.bool true)]
   | some (.error e) => Json.mkObj [("err", Json.str e.toString)]
   | some (.ok s) =>
-    if full then Json.mkObj [("ok", stateToJson s)]
+    if full then Json.mkObj [("ok", stateToJson s), ("guarded", Json.bool guarded)]
     else Json.mkObj [("ok", Json.mkObj [("slot", natJ (Op.target op)),
-                                         ("a", slotToJson ((s[Op.target op]?).getD none))])]
+                                         ("a", slotToJson ((s[Op.target op]?).getD none))]),
+                     ("guarded", Json.bool guarded)]
+
+/-- the state each op ran in: the initial state, then the result of the previous step (while steps succeed) -/
+def preStates (init : State) : List (Option (Except Err State)) → List State
+  | [] => []
+  | r :: rest =>
+    init :: (match r with
+      | some (.ok s) => preStates s rest
+      | _ => rest.map (fun _ => init))
 
 def handleHist (op : String) (j : Json) : Option (P Json) :=
   match op with
@@ -71,7 +83,9 @@ def handleHist (op : String) (j : Json) : Option (P Json) :=
         | .ok "changed" => false
         | _ => true
       let results := trace init ops
-      pure (Json.arr ((ops.zip results).map (fun (o, r) => stepResultToJson full o r)).toArray)
+      let pres := preStates init results
+      pure (Json.arr ((ops.zip (results.zip pres)).map (fun (o, r, pre) =>
+        stepResultToJson full o (decide (GuardedOp pre o ∧ AlignedOp o)) r)).toArray)
   | _ => none
 
 end Mofun.Drive
